@@ -9,6 +9,9 @@ Decided:
             each engine path uses its candidate_filter parameter as a filter (not dead).
   GUARD-C11c in get_replay_frame_ids a frame id is pushed only via {as_of_frame None edge | frame.id <= cutoff edge}
             and via {as_of_ts None edge | frame.timestamp <= cutoff edge}; the pushed id is frame.id.
+  MPT-C11e   in Memvid::search the engines can be reached without get_replay_frame_ids only through the edges that
+             establish `as_of_ts is None` and `as_of_frame is None`; any other shortcut around the replay step lets a
+             request that carries a cut-off skip it.
 Not decided: what the engines return beyond honouring the filter (value-level)."""
 from . import lib
 from .facts import Place, op_place, rv_places as facts_rv_places
@@ -26,8 +29,58 @@ def run(ctx):
     fn = ctx.need('FLOW-C11a', 'Memvid::search')
     if fn is not None:
         _search(ctx, F, fn)
+    if fn is not None:
+        _replay_reached(ctx, F, fn)
     _replay_ids(ctx, F)
     _engines(ctx, F)
+
+
+def _replay_reached(ctx, F, fn):
+    """MPT-C11e: a search engine may run without get_replay_frame_ids only on a path that has *established* that the
+    cut-off is absent - i.e. through the false edge of `request.as_of_ts.is_some()` (resp. as_of_frame). Any other way
+    around the replay step (a shortcut decided by something else) lets a request that carries a cut-off skip it."""
+    ctx.rule('MPT-C11e', 'Memvid::search: engines run without get_replay_frame_ids only past the `as_of_ts is None` and `as_of_frame is None` edges')
+    eng = [c for c in fn.calls() if c.is_(ENGINES)]
+    rp = fn.calls_to('Memvid::get_replay_frame_ids')
+    if not eng or not rp:
+        ctx.lost('MPT-C11e', 'Memvid::search: engine calls / get_replay_frame_ids not found')
+        return
+    for fld in ('as_of_ts', 'as_of_frame'):
+        none_edges = set()
+        for bs in lib.bool_switches(fn):
+            sl = lib.slice_back(fn, [{'c': {'l': bs['local'], 'p': []}}], through_calls=True, at=(bs['bb'], None))
+            if sl.has_field('SearchRequest', fld) and any(c.name == 'is_some' for c in sl.calls) and not any(c.name in ('is_some_and', 'map_or', 'is_none_or') for c in sl.calls) and \
+                    not (sl.fields - {(o, f) for o, f in sl.fields if f == fld or o != 'SearchRequest'}):
+                neg = 'Not' in sl.ops
+                none_edges.add((bs['bb'], bs['t_true'] if neg else bs['t_false']))
+        for vs in lib.variant_switches(fn):
+            if vs.get('enum') == 'Option' and 'None' in vs['arms'] and vs['place'].field_owners() and vs['place'].field_owners()[-1] == ('SearchRequest', fld):
+                none_edges.add((vs['bb'], vs['arms']['None']))
+        ctx.evaluations += len(eng)
+        if not none_edges:
+            ctx.lost('MPT-C11e', 'Memvid::search: no test of request.%s being present' % fld)
+            continue
+        # reachability from entry with the replay call removed and the None-edges cut
+        seen, st = set(), [0]
+        blocked = {c.bb for c in rp}
+        while st:
+            b = st.pop()
+            if b in seen or b in blocked:
+                continue
+            seen.add(b)
+            for nx in fn.succs(b):
+                if (b, nx) not in none_edges:
+                    st.append(nx)
+        leak = [c for c in eng if c.bb in seen]
+        if leak and fld == 'as_of_frame':
+            # frame ids are dense and ordered, so a sound shortcut exists (cut-off at or past the newest id): report, do not judge
+            ctx.candidate('MPT-C11e', fn, '%s can run without get_replay_frame_ids although request.as_of_frame may be present (sound only if the shortcut proves the cut-off lies at or past '
+                          'the newest frame id; not judged statically)' % leak[0].key.split('::')[-1], line=leak[0].line, detail='replay-skipped-with:' + fld)
+        elif leak:
+            ctx.bad('MPT-C11e', fn, '%s can run without get_replay_frame_ids on a path that never established request.%s to be None: a request carrying that cut-off can skip the '
+                    'time-travel filter' % (leak[0].key.split('::')[-1], fld), line=leak[0].line, sink=leak[0].key.split('::')[-1], detail='replay-skipped-with:' + fld)
+        else:
+            ctx.ok('MPT-C11e', fn, 'engines run without the replay filter only past `request.%s is None`' % fld)
 
 
 def _search(ctx, F, fn):
